@@ -145,6 +145,72 @@ func (e *Engine) call(fn *ssa.Function, s *St, in *ssa.Call, ip int) (next []suc
 	}
 	name := callee.String()
 	switch name {
+	// ---- standard-library and neo-go utility calls of the deployment helpers (native-Go mode), modelled as
+	// environment by their documented contract ----
+	case "(encoding/binary.bigEndian).PutUint32": // writes v big-endian into b[0:4]; b is a view: written through
+		dst := args[1].(BytesV)
+		if len(dst.b) < 4 {
+			return nil, []Out{{s.State, true, constBytes("index out of range")}}, false
+		}
+		v := args[2].(IntV).t
+		bs := make([]*T, 4)
+		if v.isC() {
+			for k := 0; k < 4; k++ {
+				bs[k] = IB(new(big.Int).And(new(big.Int).Rsh(v.n, uint(8*(3-k))), big.NewInt(255)))
+			}
+		} else { // fresh bytes tied to the value by a linear equation (no div/mod reaches the solver)
+			e.fresh++
+			sum := I(0)
+			for k := 0; k < 4; k++ {
+				bs[k] = VarByte(fmt.Sprintf("be%d_%d", e.fresh, k))
+				sum = Add(Mul(sum, I(256)), bs[k])
+			}
+			s.State.pc = And(s.pc, Eq(v, sum))
+		}
+		e.writeThrough(s, in.Call.Args[1], 0, bs)
+		return set(UnitV{})
+	case "(encoding/binary.bigEndian).Uint32":
+		src := args[1].(BytesV)
+		if len(src.b) < 4 {
+			return nil, []Out{{s.State, true, constBytes("index out of range")}}, false
+		}
+		sum := I(0)
+		for k := 0; k < 4; k++ {
+			sum = Add(Mul(sum, I(256)), src.b[k])
+		}
+		return set(IntV{sum})
+	case "(*encoding/base64.Encoding).EncodeToString": // a box: DecodeString gives the bytes back, nothing else is known
+		return set(SerV{StructV{[]Value{constBytes("base64"), args[1]}}})
+	case "(*encoding/base64.Encoding).DecodeString":
+		if box, ok := args[1].(SerV); ok {
+			if st, ok := box.v.(StructV); ok && len(st.f) == 2 {
+				if tag, _ := isConstBytes(st.f[0].(BytesV)); tag == "base64" {
+					return set(TupleV{[]Value{st.f[1], NullV{}}})
+				}
+			}
+		}
+		panic("base64 decoding of a string that was not produced by EncodeToString in this run is not modelled")
+	case "crypto/sha256.Sum256": // injective uninterpreted function (the same one the contracts' digests use)
+		if c, ok := isConstBytes(args[0].(BytesV)); ok {
+			return set(e.uf("sha256", args[0].(BytesV).b, 32, hash.Sha256([]byte(c)).BytesBE()))
+		}
+		return set(e.uf("sha256", args[0].(BytesV).b, 32, nil))
+	case "bytes.HasPrefix":
+		sb, pb := args[0].(BytesV), args[1].(BytesV)
+		if len(pb.b) > len(sb.b) {
+			return set(BoolV{tFalse})
+		}
+		return set(BoolV{bytesEq(sb.b[:len(pb.b)], pb.b)})
+	case "(github.com/nspcc-dev/neo-go/pkg/util.Uint160).BytesBE":
+		return set(BytesV{append([]*T(nil), args[0].(BytesV).b...)})
+	case "github.com/nspcc-dev/neo-go/pkg/util.Uint160DecodeBytesBE":
+		bv := args[0].(BytesV)
+		if len(bv.b) != 20 {
+			return set(TupleV{[]Value{zeroOf(callee.Signature.Results().At(0).Type()), constBytes("expected byte size of 20 (stub error value)")}})
+		}
+		return set(TupleV{[]Value{BytesV{append([]*T(nil), bv.b...)}, NullV{}}})
+	case "fmt.Errorf":
+		return set(constBytes("error (stub error value)"))
 	case "github.com/nspcc-dev/neo-go/pkg/rpcclient/actor.DefaultCheckerModifier":
 		// stub by its documented contract: an error iff the invocation did not end in the HALT state
 		p := args[0].(PtrV)
@@ -997,6 +1063,27 @@ func (e *Engine) storageFind(s *St, prefix []*T, flags int) []findAlt {
 
 // freeze deep-copies a value into an immutable tree (lists become FrozenList); thaw re-allocates it.
 type FrozenList struct{ e []Value }
+
+// writeThrough stores bytes at off.. into the byte string bound to the SSA value v and, when v is a slice
+// expression over another bound byte string, into that one too (at the slice's offset), and so on: byte slices
+// are values in this engine, so a write through a sub-slice view (b[20:]) has to be carried to what it views.
+func (e *Engine) writeThrough(s *St, v ssa.Value, off int, bs []*T) {
+	cur, ok := s.env[v].(BytesV)
+	if ok && off+len(bs) <= len(cur.b) {
+		nb := append([]*T(nil), cur.b...)
+		copy(nb[off:], bs)
+		s.env[v] = BytesV{nb}
+	}
+	if sl, ok := v.(*ssa.Slice); ok {
+		lo := 0
+		if sl.Low != nil {
+			lo = cInt(e.get(s, sl.Low))
+		}
+		if _, isBytes := s.env[sl.X].(BytesV); isBytes {
+			e.writeThrough(s, sl.X, off+lo, bs)
+		}
+	}
+}
 
 // deserialize models std.Deserialize / the DeserializeValues find option. A value serialized in this run is
 // unboxed. Concrete bytes that were never serialized here go through neo-go's real codec (fault when it
